@@ -283,9 +283,16 @@ def enum_disjoint(prog: Program) -> RuleResult:
     cls = prog.cls(MODEL, "ReconciliationInput")
     td = method_def(cls, "to_dict")
     fd = method_def(cls, "_from_dict")
-    names_written = any(
-        isinstance(n, ast.Attribute) and n.attr == "name" and dotted(n.value) == "event" for n in ast.walk(td)
-    )
+    # the key of the "costs" pairs is `<loop variable over self.costs.items()>.name`
+    names_written = False
+    for comp in ast.walk(td):
+        if isinstance(comp, (ast.DictComp, ast.GeneratorExp, ast.ListComp)) and len(comp.generators) == 1:
+            gen = comp.generators[0]
+            if isinstance(gen.iter, ast.Call) and isinstance(gen.iter.func, ast.Attribute) and gen.iter.func.attr == "items" and (dotted(gen.iter.func.value) or "").endswith("costs"):
+                kvar = dotted(gen.target.elts[0]) if isinstance(gen.target, ast.Tuple) else None
+                key = comp.key if isinstance(comp, ast.DictComp) else (comp.elt.elts[0] if isinstance(comp.elt, ast.Tuple) and comp.elt.elts else None)
+                if isinstance(key, ast.Attribute) and key.attr == "name" and dotted(key.value) == kvar:
+                    names_written = True
     if names_written:
         res.ok(f"{MODEL}:ReconciliationInput.to_dict/cost-keys", "costs keyed by event.name")
     else:
@@ -537,10 +544,12 @@ def cost_passthrough(prog: Program) -> RuleResult:
         if not isinstance(loop.target.elts[1], ast.Name):
             raise AnalysisError("_from_dict: cost loop does not bind the value to a name")
         vname2 = loop.target.elts[1].id
+        ret_fd = _returned_dict(fd)
+        cost_local = next((dotted(v) for k, v in zip(ret_fd.keys, ret_fd.values) if isinstance(k, ast.Constant) and k.value == "costs"), None)
         stores = [
             n for n in ast.walk(loop)
             if isinstance(n, ast.Assign) and len(n.targets) == 1 and isinstance(n.targets[0], ast.Subscript)
-            and dotted(n.targets[0].value) == "costs"
+            and dotted(n.targets[0].value) == cost_local
         ]
         if not stores:
             raise AnalysisError("_from_dict: no store into the cost vector inside the cost loop")
@@ -1445,7 +1454,13 @@ def error_path(prog: Program) -> RuleResult:
     main = prog.module("cli.__main__")
     run = prog.func("cli.__main__", "run")
     rets = [n for n in walk_no_nested(run) if isinstance(n, ast.Return)]
-    if rets and all(isinstance(r.value, ast.Call) and dotted(r.value.func) == "args.func" for r in rets):
+    def _status_call(v: ast.AST) -> bool:
+        if isinstance(v, ast.Name):
+            got = reaching(run, v.id, v)
+            v = got if got is not None and not isinstance(got, Opaque) else v
+        return isinstance(v, ast.Call) and isinstance(v.func, ast.Attribute) and v.func.attr == "func"
+
+    if rets and all(r.value is not None and _status_call(r.value) for r in rets):
         res.ok("cli.__main__:run/status", "returns args.func(args)")
     else:
         res.fail("cli.__main__:run/status", "the subcommand's status is not returned by run()", main, run)
